@@ -3,7 +3,8 @@
    pointer members ignored), and
    the entry points evaluated by the correspondence cases. *)
 From Coq Require Import List NArith Bool Arith.
-From RV Require Import C06.Model.
+From Coq Require String.
+From RV Require Import C05.Types Gen.Descriptors C06.Model.
 Import ListNotations.
 Open Scope N_scope.
 
@@ -16,14 +17,18 @@ Fixpoint leqb (a b : list N) : bool :=
 
 Definition sub (off len : nat) (l : list N) : list N := firstn len (skipn off l).
 
-(* reb_particle_diff: 12 doubles at 0..95 compared bitwise (memcmp per member), hash (uint32) at 104;
-   c, ap, sim pointers ignored *)
-Definition particle_differ (p q : list N) : bool :=
-  existsb (fun i => negb (leqb (sub (8 * i) 8 p) (sub (8 * i) 8 q))) (seq 0 12)
-  || negb (leqb (sub 104 4 p) (sub 104 4 q)).
-(* var_config: order, index, testparticle, index_1st_order_a/b (ints at 8..27), lrescale (double at 32) *)
-Definition varconfig_differ (p q : list N) : bool :=
-  negb (leqb (sub 8 20 p) (sub 8 20 q)) || negb (leqb (sub 32 8 p) (sub 32 8 q)).
+(* The members compared by reb_particle_diff and by the var_config branch of reb_binary_diff are REGENERATED from
+   the current binarydiff.c / rebound.h (coq/Gen/Descriptors.v, tools/translate_descriptors.py, fail-closed):
+   member names -> (offset, size) byte ranges, each compared bitwise.  (That every compared double really is
+   compared with memcmp on the current tree is the regenerated fact checked in Props.v.) *)
+Definition ranges (ms : list member) (names : list String.string) : list (nat * nat) :=
+  flat_map (fun m => if existsb (String.eqb (m_path m)) names then [(N.to_nat (m_off m), N.to_nat (m_size m))] else []) ms.
+Definition ranges_differ (rs : list (nat * nat)) (p q : list N) : bool :=
+  existsb (fun ol => negb (leqb (sub (fst ol) (snd ol) p) (sub (fst ol) (snd ol) q))) rs.
+Definition particle_ranges := ranges particle_members particle_diff_members.
+Definition varconfig_ranges := ranges varconfig_members varconfig_diff_members.
+Definition particle_differ := ranges_differ particle_ranges.
+Definition varconfig_differ := ranges_differ varconfig_ranges.
 
 (* for (i=0; i<size/esize; i++) differ |= elem_differ(a[i], b[i]) *)
 Fixpoint chunks_differ (fuel esize : nat) (elem : list N -> list N -> bool) (a b : list N) : bool :=
@@ -35,8 +40,8 @@ Fixpoint chunks_differ (fuel esize : nat) (elem : list N -> list N -> bool) (a b
   end.
 
 Definition real_peq (tp tv : N) (t : N) (a b : list N) : bool :=
-  if t =? tp then negb (chunks_differ (length a) 128 particle_differ a b)
-  else if t =? tv then negb (chunks_differ (length a) 40 varconfig_differ a b)
+  if t =? tp then negb (chunks_differ (length a) (N.to_nat particle_size) particle_differ a b)
+  else if t =? tv then negb (chunks_differ (length a) (N.to_nat varconfig_size) varconfig_differ a b)
   else leqb a b.
 
 Record rcfg := mkR { rc : cfg; r_tp : N; r_tv : N }.
